@@ -701,6 +701,36 @@ def NonTempPhys (phys : VarSet) (blocks : List (Term Blk)) : Prop :=
     (∀ d ∈ b.term.defs, ∀ e ∈ defExprs d.term, ∀ v ∈ e.inputVars, v.isTemp = false → v ∈ phys) ∧
     (∀ j ∈ b.term.jmps, ∀ e ∈ jmpExprs j.term, ∀ v ∈ e.inputVars, v.isTemp = false → v ∈ phys)
 
+theorem nonTempPhysB_sound {phys : VarSet} {blocks : List (Term Blk)} (h : nonTempPhysB phys blocks = true) :
+    NonTempPhys phys blocks := by
+  intro b hb
+  have hb' := List.all_eq_true.mp h b hb
+  simp only [Bool.and_eq_true, List.all_eq_true] at hb'
+  have hv : ∀ e : Expression, (∀ v ∈ e.inputVars, (v.isTemp || decide (v ∈ phys)) = true) →
+      ∀ v ∈ e.inputVars, v.isTemp = false → v ∈ phys := by
+    intro e he v hv ht
+    simpa [ht] using he v hv
+  refine ⟨fun d hd e he => ?_, fun j hj e he => hv e (hb'.2 j hj e he)⟩
+  have hd' := hb'.1 d hd
+  cases hdt : d.term with
+  | Assign w x =>
+    rw [hdt] at hd' he
+    simp only [List.all_eq_true] at hd'
+    simp only [defExprs, List.mem_singleton] at he; subst he
+    exact hv _ hd'
+  | Load w x =>
+    rw [hdt] at hd' he
+    simp only [List.all_eq_true] at hd'
+    simp only [defExprs, List.mem_singleton] at he; subst he
+    exact hv _ hd'
+  | Store a x =>
+    rw [hdt] at hd' he
+    simp only [Bool.and_eq_true, List.all_eq_true] at hd'
+    simp only [defExprs, List.mem_cons, List.not_mem_nil, or_false] at he
+    rcases he with rfl | rfl
+    · exact hv _ hd'.1
+    · exact hv _ hd'.2
+
 theorem exprLocal_of_exprOk {phys : VarSet} {σ : State} {defd D : List Variable} {e : Expression}
     (hnt : ∀ v ∈ e.inputVars, v.isTemp = false → v ∈ phys) (hsub : ∀ v ∈ defd, v ∈ D)
     (h : exprOk σ defd e = true) : ExprLocal phys D e := by
